@@ -76,6 +76,7 @@ def sc_term(sc):
 
 
 class Histories(Suite):
+    case_timeout = 40
     name = "histories"
     imports = ["Scheme", "Parser", "DatasetModel", "Judge.JC16", "Judge.JC15"]
     judge = "judge_history2"
